@@ -169,6 +169,7 @@ func vAssume(c bool)
 func vAssert(c bool, msg string)
 func vReach(label string)
 func vObserve(label string, v uint64)
+func vElapsedSec() uint64
 
 // helper used by the engine's model of sort.Slice / sort.SliceStable
 func vInsertionSort(n int, less func(i, j int) bool, swap func(i, j int)) {
